@@ -1112,8 +1112,10 @@ class DAGExecution(BaseDAGExecution[P, RVDAG]):
         self._pre_call()
 
         # 2. Execute the scheduler
+        # the scheduler consumes the graph it is given: hand it a copy,
+        # so that an execution that failed half way can be run again from scratch
         self.xn_dict, self.results, self.profiles = self.dag.run_subgraph(
-            self.graph, self.results, *args
+            deepcopy(self.graph), self.results, *args
         )
 
         return self._post_call()
@@ -1147,8 +1149,10 @@ class AsyncDAGExecution(BaseDAGExecution[P, RVDAG]):
         self._pre_call()
 
         # 2. Execute the scheduler
+        # the scheduler consumes the graph it is given: hand it a copy,
+        # so that an execution that failed half way can be run again from scratch
         self.xn_dict, self.results, self.profiles = await self.dag.run_subgraph(
-            self.graph, self.results, *args
+            deepcopy(self.graph), self.results, *args
         )
 
         return self._post_call()
